@@ -132,6 +132,15 @@ func (fc *FuncCtx) theoryCall(st *State, bind string, fn *types.Func, recv *Val,
 				return boolRes(Eq(fc.readLoc(st, rl), r.one())), true
 			case "Equal":
 				return boolRes(Eq(fc.readLoc(st, rl), deref(args[0]))), true
+			case "Sqrt":
+				// ok is 0 or 1; ok == 1 implies recv*recv == a (whether a root exists is a property of the field)
+				a := deref(args[0])
+				rt := fc.freshConst("sqrt", rl.Sort)
+				okc := fc.freshConst("sqrtok", SBool)
+				st.assume(Implies(okc, Eq(r.mul(rt, rt), a)))
+				fc.writeLoc(st, rl, rt)
+				fc.note("field Sqrt modelled by its defining property: ok == 1 implies root*root == a (completeness of Sqrt is assumed of the generated field code)")
+				return boolRes(okc), true
 			case "Inv":
 				// ok == 1 iff a != 0, and then recv*a == 1 ; when a == 0 the receiver content is unspecified
 				a := deref(args[0])
